@@ -56,10 +56,12 @@ AddPush(len, first) == Add(PushItem(len, first))
 AddAlt(a) == CanPush(a[1], Blob(a[2], a[3], Fill)) /\ a[1] # PushOpFor(Blob(a[2], a[3], Fill)) /\ Add(AltItem(a))
 
 UseA == Len(its) < MaxA
-Next == /\ Len(its) < (IF MaxA > MaxB THEN MaxA ELSE MaxB)
-        /\ \/ \E op \in (IF UseA THEN OpsA ELSE OpsB) : AddOp(op)
-           \/ \E len \in (IF UseA THEN LensA ELSE LensB), first \in (IF UseA THEN FirstsA ELSE FirstsB) : AddPush(len, first)
-           \/ \E a \in (IF UseA THEN AltsA ELSE AltsB) : AddAlt(a)
+More == Len(its) < (IF MaxA > MaxB THEN MaxA ELSE MaxB)
+\* the disjuncts of Next are named so that TLC's coverage reports them one by one
+Ops == More /\ \E op \in (IF UseA THEN OpsA ELSE OpsB) : AddOp(op)
+Pushes == More /\ \E len \in (IF UseA THEN LensA ELSE LensB), first \in (IF UseA THEN FirstsA ELSE FirstsB) : AddPush(len, first)
+Alts == More /\ \E a \in (IF UseA THEN AltsA ELSE AltsB) : AddAlt(a)
+Next == Ops \/ Pushes \/ Alts
 Spec == Init /\ [][Next]_vars
 
 -----------------------------------------------------------------------------
